@@ -3,6 +3,7 @@ import re
 from vflib import census, thir as T, tables
 from vflib.terms import Evaluator, Tm, subterms
 from vflib import pipeline as PL
+from rules import shared
 
 META = {
     "level": "other",
@@ -263,7 +264,7 @@ def r5(prog, ev, rep):
         # input-major: the state a selector is applied to must be built from ONE input node (an item of the input list),
         # not be the whole incoming state
         if arg == whole_state:
-            rep.bad("C02-R5", "%s|selector-major" % fn, c.loc(),
+            rep.bad("C02-R5", "%s|selector-major" % shared.rk(prog, ev, fn), c.loc(),
                     "each selector is applied to the whole input nodelist and the per-selector results are concatenated: for "
                     "`$[*]['a','b']` all `a` results precede all `b` results instead of being grouped per input node")
         else:
